@@ -260,7 +260,27 @@ def rule_seed(ctx):
         nm = rv["ops"][rv["fields"].index("name")]
         srcs = binder_sources(fn, Flow(fn, extra_pass=_name_pass), nm, fx)
         ikey = "fun2core::compile::share:def-name"
-        if srcs == {"FRESH"}:
+        # ... and the names it is drawn against are the program's labels (not, say, the variable names of the definition)
+        def drawn_against(k0, depth=0):
+            out_ = set()
+            f0 = Fn(fx.fns[k0])
+            fl0 = Flow(f0)
+            for _, t0 in f0.calls():
+                if t0.get("callee_name") == "fresh_name" and t0["args"]:
+                    r0 = op_root(t0["args"][0])
+                    for o0 in (fl0.origins(r0, tuple(place_fields(t0["args"][0]["pl"]))) if r0 is not None else ()):
+                        out_.add(o0[2][-1] if o0[0] == "arg" and o0[2] else "?")
+                else:
+                    k2_ = t0.get("resolved_key") or (t0.get("callee_key") if not t0.get("callee_trait") else None)
+                    if depth < 2 and k2_ in fx.fns and fx.fns[k2_]["crate"] == "fun2core" and "{" not in k2_ and fx.fns[k2_]["locals"][0]["ty"].endswith("String"):
+                        out_ |= drawn_against(k2_, depth + 1)
+            return out_
+        against = drawn_against(fn.f["key"])
+        if srcs == {"FRESH"} and against - {"used_labels"}:
+            res.inst(ikey, s["sp"]["file"], s["sp"]["line"], "violation")
+            res.violate(ikey, "share: the name of the lifted definition is drawn against %s, not against the labels of the program (used_labels): it can "
+                        "coincide with the name of a user definition" % sorted(against), s["sp"]["file"], s["sp"]["line"])
+        elif srcs == {"FRESH"}:
             res.inst(ikey, s["sp"]["file"], s["sp"]["line"], "ok", "name from fresh_name")
         else:
             res.inst(ikey, s["sp"]["file"], s["sp"]["line"], "violation")
